@@ -23,6 +23,10 @@ Record dm := mkD {
 
 Definition dm_init : dm := mkD None 0 None 0.
 
+(* The failure callbacks of DeckMemory.read / write are optional (read_failed_cb=None, write_failed_cb=None).  Ghost
+   encoding: the token of a request made WITHOUT failure callback is negative. *)
+Definition has_fcb (tok : Z) : bool := 0 <=? tok.
+
 Inductive dobs :=
 | DReadOk (tok asked base reported : Z) (data : list Z)   (* read_complete_cb(reported, data) *)
 | DReadFail (tok asked base reported : Z)                 (* read_failed_cb(reported) *)
@@ -53,7 +57,9 @@ Section Deck.
         if negb (i =? did) then (d, []) else
         if a =? 0 then (d, [])
         else match d_r d with
-             | Some (t, asked, b) => (mkD None (d_rbase d) (d_w d) (d_wbase d), [DReadFail t asked b (a - d_rbase d)])
+             | Some (t, asked, b) =>       (* tmp = _read_failed_cb; _clear_read_cb(); tmp(..) if tmp is not None *)
+                 (mkD None (d_rbase d) (d_w d) (d_wbase d),
+                  if has_fcb t then [DReadFail t asked b (a - d_rbase d)] else [])
              | None => (d, [])
              end
     | OWriteOk _ i a =>
@@ -66,8 +72,9 @@ Section Deck.
     | OWriteFail _ i a =>
         if negb (i =? did) then (d, []) else
         match d_w d with
-        | Some (t, asked, b) => (mkD (d_r d) (d_rbase d) None (d_wbase d),
-                                 [DWriteFail t asked b (a - (if fxd then d_wbase d else d_rbase d))])
+        | Some (t, asked, b) =>         (* _clear_write_cb(); the failure callback if there is one (F06m.patch) *)
+            (mkD (d_r d) (d_rbase d) None (d_wbase d),
+             if has_fcb t then [DWriteFail t asked b (a - (if fxd then d_wbase d else d_rbase d))] else [])
         | None => (d, [DRaise])
         end
     | _ => (d, [])
